@@ -1,4 +1,5 @@
 import LyModel.XmlLex.Model
+import LyModel.Text.Utf8Lemmas
 /-!
 # Memory-safety side of the XML pull lexer: the read position only moves forward inside the input
 
@@ -295,5 +296,339 @@ theorem closeElement_depth (cx c' : XCtx) (p : Option Bytes) (n : Bytes) (e : Bo
       · split at h
         · simp at h
         · simp only [Except.ok.injEq] at h; subst h; simp [he]
+
+end LyModel.XmlLex
+
+namespace LyModel.XmlLex
+open LyModel LyModel.Utf8 LyModel.XmlText LyModel.Generated
+
+theorem nextElement_suffix (depth : Nat) (inp : Bytes) (cl : Bool) (p : Option Bytes) (n r : Bytes)
+    (h : nextElement depth inp = .ok (some (cl, p, n, r))) : r <:+ inp := by
+  unfold nextElement at h
+  split at h
+  · simp at h
+  · simp at h
+  · rename_i c cs hs
+    have s0 := skipToTag_suffix depth _ inp _ hs
+    dsimp only at h
+    split at h
+    · split at h
+      · simp at h
+      · rename_i i hi
+        obtain ⟨⟨p', n', r'⟩, ht, hft⟩ := map_ok_inv h
+        simp only [Option.some.injEq, Prod.mk.injEq] at hft
+        obtain ⟨_, _, _, rfl⟩ := hft
+        exact (((parseQName_suffix _ _ _ _ ht).trans (ignWs_suffix _)).trans (moveInput_suffix _ _ _ hi)).trans s0
+    · obtain ⟨⟨p', n', r'⟩, ht, hft⟩ := map_ok_inv h
+      simp only [Option.some.injEq, Prod.mk.injEq] at hft
+      obtain ⟨_, _, _, rfl⟩ := hft
+      exact ((parseQName_suffix _ _ _ _ ht).trans (ignWs_suffix _)).trans s0
+
+theorem openAttrs_suffix (count : Nat) : ∀ (f : Nat) (isNs : Bool) (prev : Bytes) (ns : List XNs) (inp : Bytes) (ns' : List XNs) (p' : Bytes),
+    openAttrs count f isNs prev ns inp = .ok (ns', p') → p' <:+ inp ∨ p' = prev
+  | 0, _, _, _, _, _, _, h => by simp [openAttrs] at h
+  | f + 1, isNs, prev, ns, inp, ns', p', h => by
+    unfold openAttrs at h
+    split at h
+    · simp only [Except.ok.injEq, Prod.mk.injEq] at h; exact Or.inr h.2.symm
+    · split at h
+      · simp at h
+      · split at h
+        · simp only [Except.ok.injEq, Prod.mk.injEq] at h; exact Or.inr h.2.symm
+        · split at h
+          · simp at h
+          · rename_i p n r hq
+            have sq := parseQName_suffix _ _ _ _ hq
+            split at h
+            · simp at h
+            · rename_i v w r1 hc
+              have sc := (ignWs_suffix r1).trans ((nextAttrContent_suffix _ _ _ _ hc).trans sq)
+              dsimp only at h
+              split at h
+              · split at h
+                · simp at h
+                · rename_i nsx hns
+                  rcases openAttrs_suffix count f _ _ _ _ _ _ h with h1 | h1
+                  · exact Or.inl (h1.trans sc)
+                  · split at h1
+                    · exact Or.inl (h1 ▸ sc)
+                    · exact Or.inr h1
+              · rcases openAttrs_suffix count f _ _ _ _ _ _ h with h1 | h1
+                · exact Or.inl (h1.trans sc)
+                · exact Or.inr h1
+
+theorem openElement_suffix (cx c' : XCtx) (p : Option Bytes) (n inp : Bytes) (h : openElement cx p n inp = .ok c') : c'.inp <:+ inp := by
+  unfold openElement at h
+  dsimp only at h
+  split at h
+  · simp at h
+  · split at h
+    · simp at h
+    · rename_i ns prev ho
+      simp only [Except.ok.injEq] at h; subst h
+      rcases openAttrs_suffix _ _ _ _ _ _ _ _ ho with h1 | h1
+      · exact h1.trans (ignWs_suffix inp)
+      · simp only [h1]; exact ignWs_suffix inp
+
+theorem closeElement_suffix (cx c' : XCtx) (p : Option Bytes) (n : Bytes) (e : Bool) (inp : Bytes)
+    (h : closeElement cx p n e inp = .ok c') : c'.inp <:+ inp := by
+  unfold closeElement at h
+  split at h
+  · simp at h
+  · split at h
+    · simp at h
+    · dsimp only at h
+      split at h
+      · simp at h
+      · rename_i i2 hi2
+        have s2 : i2 <:+ inp := by
+          split at hi2
+          · exact (moveInput_suffix _ _ _ hi2).trans (ignWs_suffix inp)
+          · simp only [Except.ok.injEq] at hi2; subst hi2; exact ignWs_suffix inp
+        split at h
+        · simp at h
+        · simp only [Except.ok.injEq] at h; subst h; exact (List.drop_suffix 1 i2).trans s2
+
+theorem nextAttribute_suffix : ∀ (f : Nat) (inp : Bytes) (o : Option (Option Bytes × Bytes)) (r : Bytes),
+    nextAttribute f inp = .ok (o, r) → r <:+ inp
+  | 0, _, _, _, h => by simp [nextAttribute] at h
+  | f + 1, inp, o, r, h => by
+    unfold nextAttribute at h
+    dsimp only at h
+    have sw := ignWs_suffix inp
+    split at h
+    · simp at h
+    · rename_i c tl hc
+      split at h
+      · simp only [Except.ok.injEq, Prod.mk.injEq] at h; obtain ⟨_, rfl⟩ := h; exact sw
+      · split at h
+        · simp at h
+        · split at h
+          · simp at h
+          · split at h
+            · simp at h
+            · rename_i p n r0 hq
+              have sq := (parseQName_suffix _ _ _ _ hq).trans sw
+              split at h
+              · simp only [Except.ok.injEq, Prod.mk.injEq] at h; obtain ⟨_, rfl⟩ := h; exact sq
+              · split at h
+                · simp at h
+                · rename_i v w r1 hcn
+                  exact (nextAttribute_suffix f r1 o r h).trans ((nextAttrContent_suffix _ _ _ _ hcn).trans sq)
+
+theorem afterTag_suffix (cx c' : XCtx) (inp : Bytes) (h : afterTag cx inp = .ok c') : c'.inp <:+ inp := by
+  unfold afterTag at h
+  split at h
+  · simp at h
+  · simp only [Except.ok.injEq] at h; subst h; exact List.nil_suffix
+  · rename_i cl p n r hn
+    have s := nextElement_suffix _ _ _ _ _ _ hn
+    split at h
+    · exact (closeElement_suffix _ _ _ _ _ _ h).trans s
+    · exact (openElement_suffix _ _ _ _ _ h).trans s
+
+/-- the `LYXML_ELEMENT` / `LYXML_ATTR_CONTENT` case of `lyxml_ctx_next` -/
+def inTagStep (cx : XCtx) : Except YErr XCtx :=
+  match nextAttribute (cx.inp.length + 1) cx.inp with
+  | .error e => .error e
+  | .ok (none, i) =>
+    if i.head? == some 62 then
+      let i1 := i.drop 1
+      if i1.isEmpty then .error .invalid else
+      match XmlText.parse 60 i1 with
+      | .error _ => .error .invalid
+      | .ok (v, ws, rest) => .ok { cx with inp := rest, status := .elemContent, value := v, wsOnly := ws }
+    else
+      .ok { cx with inp := i, status := .elemContent, value := [], wsOnly := true }
+  | .ok (some (p, n), i) => .ok { cx with inp := i, status := .attribute, pfx := p, name := n }
+
+theorem inTagStep_suffix (cx c' : XCtx) (h : inTagStep cx = .ok c') : c'.inp <:+ cx.inp := by
+  unfold inTagStep at h
+  split at h
+  · simp at h
+  · rename_i i hn
+    have s := nextAttribute_suffix _ _ _ _ hn
+    split at h
+    · dsimp only at h
+      split at h
+      · simp at h
+      · split at h
+        · simp at h
+        · rename_i v ws rest hp
+          simp only [Except.ok.injEq] at h; subst h
+          exact ((parse_suffix _ _ _ hp).trans (List.drop_suffix 1 i)).trans s
+    · simp only [Except.ok.injEq] at h; subst h; exact s
+  · rename_i p n i hn
+    simp only [Except.ok.injEq] at h; subst h
+    exact nextAttribute_suffix _ _ _ _ hn
+
+/-- **`lyxml_ctx_next` moves the read position forward inside the input**, in every state -/
+theorem ctxNext_suffix (cx c' : XCtx) (h : ctxNext cx = .ok c') : c'.inp <:+ cx.inp := by
+  unfold ctxNext at h
+  split at h
+  · -- element content
+    split at h
+    · split at h
+      · simp at h
+      · exact closeElement_suffix _ _ _ _ _ _ h
+    · exact afterTag_suffix _ _ _ h
+  · exact afterTag_suffix _ _ _ h
+  · exact inTagStep_suffix cx c' h
+  · exact inTagStep_suffix cx c' h
+  · -- attribute
+    split at h
+    · simp at h
+    · rename_i v ws rest hc
+      simp only [Except.ok.injEq] at h; subst h
+      exact nextAttrContent_suffix _ _ _ _ hc
+  · simp only [Except.ok.injEq] at h; subst h; exact List.suffix_refl _
+
+end LyModel.XmlLex
+
+namespace LyModel.XmlLex
+open LyModel LyModel.Utf8 LyModel.XmlText LyModel.Generated
+
+/-! ## the fuel never runs out: any fuel above the length of the input gives the same result -/
+
+theorem identRest_fuel : ∀ (f g : Nat) (inp : Bytes), inp.length < f → inp.length < g → identRest f inp = identRest g inp
+  | 0, _, _, hf, _ => by omega
+  | _, 0, _, _, hg => by omega
+  | f + 1, g + 1, inp, hf, hg => by
+    unfold identRest
+    split
+    · rfl
+    · rename_i c n hgu
+      have ⟨hn0, hnl, _⟩ := getUtf8_append hgu
+      split
+      · rw [identRest_fuel f g (inp.drop n) (by simp; omega) (by simp; omega)]
+      · rfl
+
+theorem parseIdent_lt (inp a r : Bytes) (h : parseIdent inp = .ok (a, r)) : r.length < inp.length := by
+  unfold parseIdent at h
+  split at h
+  · simp at h
+  · rename_i c n hgu
+    have ⟨hn0, hnl, _⟩ := getUtf8_append hgu
+    split at h
+    · simp at h
+    · obtain ⟨⟨a', r'⟩, ht, hft⟩ := map_ok_inv h
+      simp only [Prod.mk.injEq] at hft
+      obtain ⟨_, rfl⟩ := hft
+      have := (identRest_suffix _ _ a' r' ht).length_le
+      simp at this; omega
+
+theorem parseQName_lt (inp : Bytes) (p : Option Bytes) (n r : Bytes) (h : parseQName inp = .ok (p, n, r)) : r.length < inp.length := by
+  unfold parseQName at h
+  split at h
+  · simp at h
+  · rename_i a r0 h0
+    have l0 := parseIdent_lt inp a r0 h0
+    split at h
+    · split at h
+      · simp at h
+      · rename_i r1 h1
+        have s1 := (moveInput_suffix _ _ _ h1).length_le
+        obtain ⟨⟨b, r2⟩, ht, hft⟩ := map_ok_inv h
+        simp only [Prod.mk.injEq] at hft
+        obtain ⟨_, _, rfl⟩ := hft
+        have := parseIdent_lt _ _ _ ht
+        omega
+    · simp only [Except.ok.injEq, Prod.mk.injEq] at h; obtain ⟨_, _, rfl⟩ := h; exact l0
+
+theorem nextAttribute_fuel : ∀ (f g : Nat) (inp : Bytes), inp.length < f → inp.length < g → nextAttribute f inp = nextAttribute g inp
+  | 0, _, _, hf, _ => by omega
+  | _, 0, _, _, hg => by omega
+  | f + 1, g + 1, inp, hf, hg => by
+    unfold nextAttribute
+    dsimp only
+    have sw := (ignWs_suffix inp).length_le
+    split
+    · rfl
+    · split
+      · rfl
+      · split
+        · rfl
+        · split
+          · rfl
+          · split
+            · rfl
+            · rename_i p n r0 hq
+              have lq := parseQName_lt _ _ _ _ hq
+              split
+              · rfl
+              · split
+                · rfl
+                · rename_i v w r1 hcn
+                  have lc := (nextAttrContent_suffix _ _ _ _ hcn).length_le
+                  exact nextAttribute_fuel f g r1 (by omega) (by omega)
+
+theorem skipToTag_fuel (depth : Nat) : ∀ (f g : Nat) (inp : Bytes), inp.length < f → inp.length < g →
+    skipToTag depth f inp = skipToTag depth g inp
+  | 0, _, _, hf, _ => by omega
+  | _, 0, _, _, hg => by omega
+  | f + 1, g + 1, inp, hf, hg => by
+    unfold skipToTag
+    have sw := (ignWs_suffix inp).length_le
+    split
+    · rfl
+    · rename_i c cs hc
+      rw [hc] at sw
+      simp only [List.length_cons] at sw
+      split
+      · rfl
+      · split
+        · rfl
+        · rename_i r0
+          simp only [List.length_cons] at sw
+          split
+          · rfl
+          · split
+            · rename_i r1 h1
+              have l1 := (stripPrefix_suffix _ _ _ h1).length_le
+              split
+              · rfl
+              · split
+                · rfl
+                · rename_i r2 h2
+                  have l2 := (skipSection_suffix _ _ _ h2).length_le
+                  exact skipToTag_fuel depth f g r2 (by omega) (by omega)
+            · rfl
+        · rename_i r0
+          simp only [List.length_cons] at sw
+          split
+          · rfl
+          · rename_i r2 h2
+            have l2 := (skipSection_suffix _ _ _ h2).length_le
+            simp only [List.length_cons] at l2
+            exact skipToTag_fuel depth f g r2 (by omega) (by omega)
+        · rfl
+
+theorem openAttrs_fuel (count : Nat) : ∀ (f g : Nat) (isNs : Bool) (prev : Bytes) (ns : List XNs) (inp : Bytes),
+    inp.length < f → inp.length < g → openAttrs count f isNs prev ns inp = openAttrs count g isNs prev ns inp
+  | 0, _, _, _, _, _, hf, _ => by omega
+  | _, 0, _, _, _, _, _, hg => by omega
+  | f + 1, g + 1, isNs, prev, ns, inp, hf, hg => by
+    unfold openAttrs
+    split
+    · rfl
+    · split
+      · rfl
+      · split
+        · rfl
+        · split
+          · rfl
+          · rename_i p n r hq
+            have lq := parseQName_lt _ _ _ _ hq
+            split
+            · rfl
+            · rename_i v w r1 hc
+              have lc := (nextAttrContent_suffix _ _ _ _ hc).length_le
+              have lw := (ignWs_suffix r1).length_le
+              dsimp only
+              split
+              · split
+                · rfl
+                · exact openAttrs_fuel count f g _ _ _ _ (by omega) (by omega)
+              · exact openAttrs_fuel count f g _ _ _ _ (by omega) (by omega)
 
 end LyModel.XmlLex
